@@ -117,6 +117,45 @@ func runSuccessGate(c *Ctx) {
 		if nret == 0 || len(counters) == 0 {
 			c.Unknown("receiver/success-condition", recv.Pos(), "cannot find a counter compared with the file total on the way to `return m, nil`")
 		}
+		// every success return is reachable only with counter >= total established
+		complete := &PassSpec{Vias: []Via{{Cond: func(g *FuncInfo, e ast.Expr) (string, bool, bool) {
+			be, ok := ast.Unparen(e).(*ast.BinaryExpr)
+			if !ok {
+				return "", false, false
+			}
+			o, _ := ObjOf(g.Info(), be.X).(*types.Var)
+			if o == nil || !counters[o] {
+				return "", false, false
+			}
+			isTotal := false
+			for _, d := range resolveExprs(g, be.Y, 1) {
+				if call, ok := ast.Unparen(d).(*ast.CallExpr); ok {
+					if id, ok := ast.Unparen(call.Fun).(*ast.Ident); ok && id.Name == "len" {
+						isTotal = true
+					}
+				}
+			}
+			if !isTotal {
+				return "", false, false
+			}
+			switch be.Op {
+			case token.GEQ, token.EQL:
+				return "all-complete", true, true
+			case token.LSS, token.NEQ:
+				return "all-complete", false, true
+			}
+			return "", false, false
+		}}}}
+		kret := 0
+		for _, b := range cfg.Blocks {
+			ret, ok := IsReturnExit(b)
+			if !ok || len(ret.Results) != 2 || types.ExprString(ret.Results[1]) != "nil" {
+				continue
+			}
+			kret++
+			c.Check(complete.Passed(recv, NodeRef{b, len(b.Nodes) - 1}, "all-complete"), fmt.Sprintf("receiver/return-nil#%d/all-complete", kret), ret.Pos(),
+				"success is returned only with the completed-file counter at the file total", "RecvManifestMultiStream returns success on a path where the completed-file counter was not compared with the file total: an End record, a graceful close or a drained channel alone reports success for an incomplete tree")
+		}
 		n := 0
 		for _, f := range all(recv) {
 			fi := f.Info()
